@@ -182,11 +182,11 @@ End CounterInst.
    (uid, state id); the outcomes of each expanded state are given as a table. *)
 Module TableInst.
   Definition St := (Z * Z)%type.
-  Definition table := list (Z * list (list (outcome St))).
-  Fixpoint lookup (tb : table) (u : Z) : list (list (outcome St)) :=
+  Definition otable := list (Z * list (list (outcome St))).
+  Fixpoint lookup (tb : otable) (u : Z) : list (list (outcome St)) :=
     match tb with [] => [] | (k, v) :: r => if k =? u then v else lookup r u end.
-  Definition targets (tb : table) (s : St) : list nat := seq 0 (length (lookup tb (fst s))).
-  Definition sstep (tb : table) (s : St) (t : nat) : list (outcome St) := nth t (lookup tb (fst s)) [].
+  Definition targets (tb : otable) (s : St) : list nat := seq 0 (length (lookup tb (fst s))).
+  Definition sstep (tb : otable) (s : St) (t : nat) : list (outcome St) := nth t (lookup tb (fst s)) [].
   Definition sid (s : St) : Z := snd s.
   Definition refresh (_ s : St) : St := s.
 End TableInst.
